@@ -156,3 +156,34 @@ Print Assumptions C19_cmp_fixed_eq_fixed.
 
 Example C19_key_order_nonvacuous : total_order N.compare.
 Proof. exact key_order_example. Qed.
+
+(* ---- descriptors (derived Eq/Ord of Descriptor, Sh, Wsh, Bare, Pkh, Wpkh, TapTree; Tr by hand, cache skipped):
+        exactly as good as the miniscript-level impls they are built from *)
+From Verif Require Import EqOrdDescModel EqOrdDescProofs.
+
+Theorem C19_desc_eq_transfers : forall meq, (forall a b, meq a b = true <-> a = b) ->
+  forall a b, desc_eq meq a b = true <-> a = b.
+Proof. exact desc_eq_structural. Qed.
+Print Assumptions C19_desc_eq_transfers.
+
+Theorem C19_desc_eq_fixed_structural : forall a b, desc_eq eq_fixed a b = true <-> a = b.
+Proof. exact desc_eq_fixed_structural. Qed.
+Print Assumptions C19_desc_eq_fixed_structural.
+
+Theorem C19_desc_eq_refuted :
+  exists a b a' b', desc_eq eq_iter a b = true /\ a <> b /\ desc_eq eq_iter a' b' = true /\ a' <> b'.
+Proof. exact desc_eq_refuted. Qed.
+Print Assumptions C19_desc_eq_refuted.
+
+Theorem C19_desc_cmp_refuted : exists a b c d,
+  desc_cmp cmp_iter N.compare N.compare a b = EqOrdModel.Panic 356 /\
+  desc_cmp cmp_iter N.compare N.compare c d = EqOrdModel.Ok Eq /\ c <> d.
+Proof. exact desc_cmp_refuted. Qed.
+Print Assumptions C19_desc_cmp_refuted.
+
+(* desc_cmp_total_order_partial: proved here: no panic and Equal <-> structural equality (antisymmetry and
+   transitivity of the descriptor order are not stated; they are checked per run by the oracle) *)
+Theorem C19_desc_cmp_fixed_partial : forall kf kx, total_order kf -> total_order kx ->
+  forall a b, exists c, desc_cmp cmp_fixed kf kx a b = EqOrdModel.Ok c /\ (c = Eq <-> a = b).
+Proof. exact desc_cmp_fixed. Qed.
+Print Assumptions C19_desc_cmp_fixed_partial.
